@@ -23,6 +23,16 @@ CLAIMS = {
               "schedule equals the model's) re-checked in Lean each run and validated on interpreter-mode traces; "
               "the implementation is additionally swept for nsweep=1..K (bit-level monotonicity, fixed point). "
               "Existence of the fixed point is measured, not proved.")),
+    "C11": dict(
+        category="proof", design_ref="DESIGN.md §8 C11",
+        technique="Lean 4 theorems (parametric congruence for the flag, real-arithmetic unit-norm lemma) + AST schema facts + with/without-flag runs of the real code (interpreter and JIT)",
+        text=("Proved for every scalar type: the traveltime grid, vzero and the outcome class returned with "
+              "return_gradient are those returned without it (2D incl. the off-grid source initialisation, 3D); proved "
+              "over the reals: every assembled gradient vector has norm 1 or is zero. Tied to the code by regenerated "
+              "AST facts (the flag only guards stores into ttsgn/ttgrad) and by comparing the traces of traveltime "
+              "stores with and without the flag; the implementation is swept in interpreter and JIT mode (bit-identity, "
+              "norms, array layout). Direction clauses (20 degrees, finite differences, zero only at the source) are "
+              "measured, not proved. Known finding: the compiled 3D build is not bit-identical (fast-math contraction).")),
 }
 
 WIP = "check not registered yet in this revision (model/theorems under construction); see DESIGN.md §8"
